@@ -20,6 +20,34 @@ Theorem C09_cache_invariant : forall keys sched, Minv (run mstate mstep sched (m
 Proof. intros keys sched. apply run_inv; [intros; eapply mstep_inv; eauto | apply minit_inv]. Qed.
 Print Assumptions C09_cache_invariant.
 
+(* ... and the cacher never deadlocks: in every reachable state either every use has returned or
+   some use can take a step (the mutex is only ever held by a use that can go on to call the
+   function, store the result and release it). *)
+Theorem C09_cacher_never_deadlocks : forall keys sched,
+  let s := run mstate mstep sched (minit keys) in
+  (forall t th, nth_opt t (ms_threads s) = Some th -> m_pc th = 3) \/ exists t s', mstep t s = Some s'.
+Proof. exact memo_no_deadlock. Qed.
+Print Assumptions C09_cacher_never_deadlocks.
+
+(* Input values that cannot serve as map keys: the cacher calls the function directly.  For any
+   number of such uses and every schedule each use calls the function itself exactly once and
+   observes the result of its own call, and a use that has not returned can always take its step:
+   nothing fails and nothing waits. *)
+Theorem C09_unkeyable_inputs_call_each_time : forall n sched,
+  let s := run ustate ustep sched (uinit n) in
+  NoDup (map fst (us_calls s)) /\
+  (forall t th, nth_opt t (us_threads s) = Some th -> u_pc th = 3 ->
+     exists r, u_res th = Some r /\ In (t, r) (us_calls s)) /\
+  (forall t th, nth_opt t (us_threads s) = Some th -> u_pc th <> 3 -> exists s', ustep t s = Some s').
+Proof. exact unkeyable_one_call_per_use. Qed.
+Print Assumptions C09_unkeyable_inputs_call_each_time.
+
+Example C09_unkeyable_nonvacuous :
+  let s := run ustate ustep [2; 0; 2; 1] (uinit 3) in
+  map fst (us_calls s) = [1; 0; 2] /\ map u_res (us_threads s) = [Some 1; Some 2; Some 0].
+Proof. vm_compute. split; reflexivity. Qed.
+Print Assumptions C09_unkeyable_nonvacuous.
+
 Example C09_nonvacuous :
   let s := run mstate mstep [0; 1; 0; 2; 0; 1; 2; 1; 1; 2; 2] (minit [5; 5; 7]) in
   calls_for 5 s = [0] /\ calls_for 7 s = [1] /\ map m_res (ms_threads s) = [Some 0; Some 0; Some 1].
